@@ -154,6 +154,10 @@ def run(ctx):
             expect_fail("invalid sizer.names in gitconfig with %s" % fmt, config=[("sizer.names", "shortest")], args=[a for a in fmt if not a.startswith("--names")])
             expect_fail("invalid sizer.progress in gitconfig with %s" % fmt, config=[("sizer.progress", "perhaps")], args=[a for a in fmt if a != "--no-progress"])
         expect_fail("invalid sizer.threshold in gitconfig", config=[("sizer.threshold", "lots")], args=[])
+        for k, v in (("names", "full "), ("names", " none"), ("names", "hash\n"), ("threshold", " 1"), ("threshold", "30\t"), ("threshold", "0\n")):
+            # refused as --names=<v> / --threshold=<v> on the command line, so refused from gitconfig as well
+            expect_fail("sizer.%s = %r (a valid value with white space around it) in gitconfig" % (k, v), config=[("sizer." + k, v)], args=[])
+            expect_fail("--%s=%r" % (k, v), args=["--%s=%s" % (k, v)])
         expect_fail("invalid sizer.jsonVersion in gitconfig", config=[("sizer.jsonVersion", "9")], args=["--json"])
         expect_fail("invalid regexp in refgroup", config=[("refgroup.x.includeregexp", "(")], args=[])
         expect_fail("refgroup without rules", config=[("refgroup.x.name", "X")], args=[])
